@@ -364,7 +364,7 @@ def gen_c04(r, knobs=None):
 def gen_c01(r, knobs=None):
     """histories over one store with different roots/contexts/namespace mountings, forcing, run failures, restarts,
     MultiChains - no crashes (those are C05's)."""
-    kn = {'n_roots': (2, 4), 'n_pipes': (1, 4), 'p_override': 0.6}
+    kn = {'n_roots': (2, 4), 'n_pipes': (1, 4), 'p_override': 0.6, 'p_twin': 0.35}
     kn.update(knobs or {})
     world = gen.gen_world(r, kn)
     b = B(world, r)
